@@ -44,7 +44,7 @@ Target(h, op) == CASE op.op = "start" -> op.n
 Step(h, op) ==
   IF op.op = "read"
   THEN LET k == Min(op.n, Avail(h)) IN
-       [h |-> [h EXCEPT !.pos = @ + k], ok |-> TRUE, n |-> k, bytes |-> SubSeq(h.data, h.pos + 1, h.pos + k)]
+       [h |-> [h EXCEPT !.pos = @ + k], ok |-> TRUE, n |-> k, bytes |-> IF k = 0 THEN <<>> ELSE SubSeq(h.data, h.pos + 1, h.pos + k)]
   ELSE LET t == Target(h, op) IN
        IF t < 0 THEN [h |-> h, ok |-> FALSE, n |-> 0, bytes |-> <<>>]
        ELSE [h |-> [h EXCEPT !.pos = t], ok |-> TRUE, n |-> t, bytes |-> <<>>]
